@@ -129,7 +129,16 @@ def cache_part(ck, tier, rng, sources):
     for name, files, main in feinputs.seed_programs():
         if "generic" in name or "generics" in name:
             inputs.append((name, files, main))
-    seeds = list(inputs)
+    # every generic function of every generic program once with an ill-typed declaration as the last statement but one of its body: the
+    # instantiation fails AFTER the instantiations its body needs were created, and the program calls it again
+    for bi, (b, S, vs) in enumerate(sources):
+        lines = dict(vs)["G"].split("\n")
+        ends = [i for i, ln in enumerate(lines) if ln.startswith("Und kann so benutzt werden:") and any(l2.startswith("Die generische Funktion") for l2 in lines[max(0, i - 40):i])]
+        for n, e in enumerate(ends):
+            if e >= 2 and lines[e - 1].startswith("\t"):
+                mod = lines[:e - 1] + ['\tDie Zahl kaputt ist "keine Zahl".'] + lines[e - 1:]
+                inputs.append(("G%d:fail-in-function-%d" % (bi, n), {"main.ddp": "\n".join(mod).encode()}, "main.ddp"))
+    seeds = [x for x in inputs if ":fail-in-function-" not in x[0]]
     toks = feinputs.tokenize([f[m] for _, f, m in seeds])
     nmut = 40 if tier == "quick" else 400
     for (name, files, main), tk in zip(seeds, toks):
